@@ -26,11 +26,14 @@ LINE_COVERAGE = True
 ANCHOR_FILES = ['droop/values/fixed.py', 'droop/values/rational.py', 'droop/values/__init__.py']
 
 
-def init_fixed(p):
+def init_fixed(p, display=None):
+    "display is a presentation option: it must not reach the arithmetic, so it is varied too"
     if p == 0 and random.random() < 0.5:
         Fixed.initialize(Options(dict(arithmetic='integer')))
-    else:
+    elif display is None:
         Fixed.initialize(Options(dict(arithmetic='fixed', precision=p)))
+    else:
+        Fixed.initialize(Options(dict(arithmetic='fixed', precision=p, display=display)))
 
 
 def F(r):
@@ -49,8 +52,11 @@ def drive_fixed_pair(a, b, ints=True):
         Fixed.div(x, y, round='down'); Fixed.div(x, y, round='up')
     if ints and abs(b) < 10 ** 6:
         x * b; x + b; x - b                       # noqa
+        Fixed.mul(x, b, round='up'); Fixed.mul(a if abs(a) < 10 ** 6 else 3, y, round='down')      # plain ints are accepted operands
         if b != 0:
             x / b; x // b                         # noqa
+            Fixed.div(x, b, round='up'); Fixed.div(x, b, round='down')
+            Fixed.muldiv(x, y, b, round='up')
     -x; +x; abs(x); bool(x)                       # noqa
 
 
@@ -103,10 +109,11 @@ def shard(ctx):
         mine = [a for i, a in enumerate(vals) if i % ctx.nshards == ctx.shard]
         before = rec.total()
         for p in range(0, 5):
-            init_fixed(p)
-            for a in mine:
-                for b in vals:
-                    drive_fixed_pair(a, b)
+            for disp in sorted({None, 0, max(0, p - 1)}, key=repr):
+                init_fixed(p, disp)
+                for a in mine:
+                    for b in vals:
+                        drive_fixed_pair(a, b)
         tri = list(range(-13, 14))
         mine3 = [a for i, a in enumerate(tri) if i % ctx.nshards == ctx.shard]
         for p in range(0, 5):
@@ -124,7 +131,7 @@ def shard(ctx):
             if (ctx.deadline - __import__('time').monotonic()) < ctx.budget_s * (1 - t_end) and i >= n_min:
                 break
             p = rng.randint(0, 30)
-            init_fixed(p)
+            init_fixed(p, rng.choice([None, None, 0, 1, rng.randint(0, p)]))
             for _ in range(20):
                 mag = 10 ** rng.randint(0, 40)
                 a, b, c = (rng.randint(-mag, mag) for _ in range(3))
